@@ -37,8 +37,8 @@ func simPolyStrings(a []*big.Int) []string {
 }
 
 var simBadShareKinds = map[string]bool{"omit": true, "bad": true, "trunc": true, "zero": true, "ger": true, "badlen": true, "wrongtag": true, "empty": true, "late": true,
-	"badfirst": true, "long": true, "nil": true, "omit-latebad": true, "omit-lateok": true}
-var simBadAnswerKinds = map[string]bool{"omit": true, "bad": true, "zero": true, "ger": true, "badlen": true, "badidx": true, "badfirst": true, "long": true, "idx255": true}
+	"badfirst": true, "long": true, "nil": true, "omit-latebad": true, "omit-lateok": true, "neg": true, "plus-r-half": true}
+var simBadAnswerKinds = map[string]bool{"omit": true, "bad": true, "zero": true, "ger": true, "badlen": true, "badidx": true, "badfirst": true, "long": true, "idx255": true, "neg": true}
 var simBadVecKinds = map[string]bool{"omit": true, "badlen": true, "badpoint": true, "badvalue": true, "offcurve": true, "notg2": true,
 	"badpoint-first": true, "badvalue-last": true, "offcurve-first": true, "notg2-first": true, "offcurve-mid": true, "notg2-mid": true, "badpoint-mid": true,
 	"allbad": true, "longer": true, "shorter": true, "order13": true, "g2plus13": true, "order13-first": true, "g2plus13-first": true, "g2plus13-c1": true, "g2pm13-pair": true}
@@ -198,8 +198,8 @@ var simAnswerKinds = []string{"ok", "omit", "bad", "zero", "ger", "badlen", "bad
 // point too many / too few, exact duplicates, "wrong first, right second"
 var simVecKinds2 = []string{"same", "badpoint-first", "badvalue-last", "offcurve-first", "notg2-first", "offcurve-mid", "notg2-mid", "badpoint-mid", "allbad", "longer", "shorter",
 	"order13", "g2plus13", "order13-first", "g2plus13-first", "g2pm13-pair"}
-var simShareKinds2 = []string{"badfirst", "twice", "long", "nil", "omit-latebad", "omit-lateok"}
-var simAnswerKinds2 = []string{"badfirst", "long", "idx255"}
+var simShareKinds2 = []string{"badfirst", "twice", "long", "nil", "omit-latebad", "omit-lateok", "neg", "plus-r-half"}
+var simAnswerKinds2 = []string{"badfirst", "long", "idx255", "neg"}
 
 // a polynomial of degree t with P(x) = 0 (x != 0) and non-zero constant and leading coefficients
 func simPolyWithRoot(r *rand.Rand, t int, x int64) []*big.Int {
